@@ -245,9 +245,11 @@ fn execute_burst(c: &DCfg, seed: u64, k: usize, rounds: usize) -> W {
                     let (w, go) = (&w, &go);
                     std::thread::Builder::new().name(format!("unsub{}", i)).spawn_scoped(sc, move || {
                         go.fetch_add(1, std::sync::atomic::Ordering::AcqRel);
+                        let mut spins = 0u32;
                         while go.load(std::sync::atomic::Ordering::Acquire) < k {
-                            if cfg!(miri) {
-                                std::thread::yield_now();
+                            spins += 1;
+                            if cfg!(miri) || spins > 2000 {
+                                std::thread::yield_now(); // (fewer CPUs than threads: do not burn the time slice)
                             } else {
                                 std::hint::spin_loop();
                             }
@@ -408,9 +410,11 @@ fn execute_selrace(c: &DCfg, seed: u64, n: usize) -> W {
                 let mut st = St::initial(0);
                 for k in 0..rounds {
                     arrived.fetch_add(1, std::sync::atomic::Ordering::AcqRel);
+                    let mut spins = 0u32;
                     while arrived.load(std::sync::atomic::Ordering::Acquire) < (k + 1) * n {
-                        if cfg!(miri) {
-                            std::thread::yield_now();
+                        spins += 1;
+                        if cfg!(miri) || spins > 2000 {
+                            std::thread::yield_now(); // (fewer CPUs than threads: do not burn the time slice)
                         } else {
                             std::hint::spin_loop();
                         }
